@@ -31,6 +31,16 @@ def run(ctx):
     q3(ctx, F)
     q4(ctx, F)
     q5(ctx, F)
+    # "never `bestmove none` in a position that has legal moves": the root may not end up with an empty list while legal moves
+    # exist - the repetition filter drops at most one move and only when another one is left (C06.P4)
+    from . import p06
+    before, nv = len(ctx.instances), len(ctx.violations)
+    p06.p4(ctx, F)
+    for i in ctx.instances[before:]:
+        i["rule"] = "C07.Q6(" + i["rule"] + ")"
+    for v in ctx.violations[nv:]:
+        v["rule"] = "C07.Q6(" + v["rule"] + ")"
+        v["key"] = "C07.Q6|" + v["key"]
 
 
 def q5(ctx, F):
